@@ -86,7 +86,8 @@ Definition sub_atoms (g : mol) (sel : list Z) (recalc : bool) : list (Z * atom) 
   map (fun na => (fst na, if recalc then clear_h (snd na) else snd na)) (filter (fun na => zmem (fst na) sel) (m_atoms g)).
 
 (* sub._bonds: for n in atoms: {m: bond for m, bond in self._bonds[n].items() if m in atoms}; KeyError when an atom has
-   no bond dictionary *)
+   no bond dictionary.  (The code takes the bond object of an already copied neighbour from sb[m][n]: on a symmetric bond
+   dictionary - every molecule the public API can build - that is the same order; an asymmetric one is outside this model.) *)
 Fixpoint sub_adj (g : mol) (sel : list Z) (ns : list Z) : pyres (list (Z * list (Z * bond))) :=
   match ns with
   | [] => Ok []
